@@ -12,6 +12,7 @@ use std::collections::BTreeSet;
 use std::rc::Rc;
 
 pub struct RunResult {
+    pub step_calls: Vec<u64>,
     pub violation: Option<Violation>,
     pub trace: Vec<Step>,
     pub stats: RunStats,
@@ -63,6 +64,7 @@ impl World {
             geo,
             prop: prop.to_string(),
             obs: 0x0B5,
+            step_calls: vec![],
         })
     }
 
@@ -88,7 +90,7 @@ impl World {
     fn plan_for(&self, step: &Step) -> FaultPlan {
         FaultPlan {
             hard_at: step.hard_at,
-            sticky: false,
+            sticky: step.sticky,
             benign: Benign {
                 eintr: self.cfg.benign.eintr,
                 short_read: self.cfg.benign.short_read,
@@ -113,6 +115,7 @@ pub fn run(cfg: RunCfg, prop: &str, src: &mut dyn StepSource, max_steps: usize) 
         Ok(s) => s,
         Err(e) => {
             return RunResult {
+                step_calls: vec![],
                 violation: Some(viol("HARNESS", "volume-build-failed", e, 0)),
                 trace: vec![],
                 stats: RunStats::default(),
@@ -129,6 +132,7 @@ pub fn run_on(cfg: RunCfg, store: Store, prop: &str, src: &mut dyn StepSource, m
         Ok(w) => w,
         Err(e) => {
             return RunResult {
+                step_calls: vec![],
                 violation: Some(viol("HARNESS", "volume-not-coherent", e, 0)),
                 trace: vec![],
                 stats: RunStats::default(),
@@ -153,7 +157,7 @@ pub fn run_on(cfg: RunCfg, store: Store, prop: &str, src: &mut dyn StepSource, m
     w.stats.clock_span_s = w.clock.span_s();
     w.stats.device_calls = w.disk.borrow().total_calls;
     let fp = w.disk.borrow().store.fingerprint();
-    RunResult { violation, trace, stats: w.stats.clone(), final_fingerprint: fp, obs_hash: w.obs }
+    RunResult { step_calls: w.step_calls.clone(), violation, trace, stats: w.stats.clone(), final_fingerprint: fp, obs_hash: w.obs }
 }
 
 fn session(w: &mut World, src: &mut dyn StepSource, trace: &mut Vec<Step>, max_steps: usize) -> Result<SessionEnd, Violation> {
@@ -1105,9 +1109,41 @@ pub fn exec_step(w: &mut World, s: &mut Session, step: &Step) -> Result<(), Viol
 
     // ---- after the call ----
     let injected = w.disk.borrow().injected.clone();
+    while w.step_calls.len() < step_no {
+        w.step_calls.push(0);
+    }
+    w.step_calls.push(w.disk.borrow().op_calls);
     if !injected.is_empty() {
         w.stats.hard_faults += injected.len() as u64;
         w.faulted = true;
+        if o.io_errors {
+            // C09: an error injected outside a destructor must come back as Error::Io carrying the storage's error
+            let outside: Vec<u64> = injected.iter().filter(|i| !i.in_drop).map(|i| i.id).collect();
+            if !outside.is_empty() {
+                match &out.res {
+                    Err(E::Io(id)) if outside.contains(id) => {}
+                    Err(E::Io(id)) => {
+                        return Err(viol("C09", "io-error-masked", format!("{:?}: injected error id(s) {:?} (device call {} of the operation), returned Io({})", step.op, outside, injected[0].k, id), step_no))
+                    }
+                    Ok(()) => {
+                        return Err(viol(
+                            "C09",
+                            "io-error-swallowed",
+                            format!("{:?}: storage error injected at device call {} ({:?}) but the call returned Ok", step.op, injected[0].k, injected[0].kind),
+                            step_no,
+                        ))
+                    }
+                    Err(e) => {
+                        return Err(viol(
+                            "C09",
+                            "io-error-masked",
+                            format!("{:?}: storage error injected at device call {} ({:?}) came back as {:?}", step.op, injected[0].k, injected[0].kind, e),
+                            step_no,
+                        ))
+                    }
+                }
+            }
+        }
     }
     match &out.res {
         Ok(()) => w.stats.ops_ok += 1,
